@@ -16,6 +16,7 @@ pub mod condvar;
 pub mod chan;
 pub mod rwlock;
 pub mod flag;
+pub mod fdreuse;
 
 pub fn lookup(name: &str) -> Option<Builder> {
     match name {
@@ -38,6 +39,7 @@ pub fn lookup(name: &str) -> Option<Builder> {
         "chan" => Some(chan::build),
         "rwlock" => Some(rwlock::build),
         "flag" => Some(flag::build),
+        "fdreuse" => Some(fdreuse::build),
         _ => None,
     }
 }
